@@ -532,7 +532,7 @@ sys.path.insert(0, sys.argv[1])
 import diskcache
 from diskcache import core
 assert os.path.realpath(os.path.dirname(os.path.dirname(core.__file__))) == os.path.realpath(sys.argv[1]), core.__file__
-mode, kind, directory, shards = sys.argv[2], sys.argv[3], sys.argv[4], int(sys.argv[5])
+mode, kind, directory, shards, expect = sys.argv[2], sys.argv[3], sys.argv[4], int(sys.argv[5]), sys.argv[6]
 keys = pickle.loads(bytes.fromhex(sys.stdin.read()))
 if kind == 'fanout':
     c = diskcache.FanoutCache(directory, shards=shards, eviction_policy='none')
@@ -547,7 +547,7 @@ if mode == 'write':
 else:
     for i, k in enumerate(keys):
         try:
-            out['found'].append(list(c[k]) == ['first', i])
+            out['found'].append(list(c[k]) == [expect, i])
         except KeyError:
             out['found'].append(None)
     for i, k in enumerate(keys):          # storing again under the equal key replaces the entry, it does not add one
@@ -571,11 +571,11 @@ def xproc_keys(protocol):
     return out
 
 
-def xproc_child(seed, mode, kind, directory, shards, keys):
+def xproc_child(seed, mode, kind, directory, shards, keys, expect='first'):
     import subprocess
     env = dict(os.environ)
     env.update({'PYTHONHASHSEED': seed, 'PYTHONPATH': fw.REPO, 'PYTHONDONTWRITEBYTECODE': '1'})
-    p = subprocess.run([fw.PY, '-c', XPROC_CHILD, fw.REPO, mode, kind, directory, str(shards)], input=pickle.dumps(keys, protocol=4).hex(),
+    p = subprocess.run([fw.PY, '-c', XPROC_CHILD, fw.REPO, mode, kind, directory, str(shards), expect], input=pickle.dumps(keys, protocol=4).hex(),
                        stdout=subprocess.PIPE, stderr=subprocess.PIPE, text=True, env=env, timeout=300)
     if p.returncode != 0:
         raise RuntimeError('child interpreter failed: ' + p.stderr[-800:])
@@ -592,8 +592,8 @@ def xproc_case(ctx, kind, shards, keys, seeds):
         base = {'check': 'cross_process', 'kind': kind, 'shards': shards, 'seeds': list(seeds), 'keys_pickle_hex': pickle.dumps(keys, protocol=4).hex()}
         if w['len'] != len(keys) or w['listed'] != len(keys):
             problems.append(('key_alias_on_store', '%s (%d shards): %d pairwise distinct keys stored, len %d, %d listed' % (kind, shards, len(keys), w['len'], w['listed']), base))
-        for s in seeds[1:]:
-            o = xproc_child(s, 'read', kind, d, shards, keys)
+        for n, s in enumerate(seeds[1:]):
+            o = xproc_child(s, 'read', kind, d, shards, keys, 'first' if n == 0 else 'second')     # every reader stores ('second', i) again
             for i, k in enumerate(keys):
                 if o['found'][i] is not True:
                     problems.append(('other_process_misses_key:%s' % type(k).__name__,
